@@ -44,7 +44,7 @@ def main():
         try:
             props = [prop] + ([l.split('"')[3] for l in open(os.path.join(V, 'properties.jsonl')) if l.split('"')[3] != prop] if allp else [])
             for p in props:
-                rc, o = sh('./check %s --tier quick' % p, cwd=V)
+                rc, o = sh('timeout 1800 ./check %s --tier quick' % p, cwd=V)
                 viol = [l for l in o.split('\n') if l.startswith('VIOLATION')]
                 results[p] = dict(exit=rc, violation=viol[0] if viol else None)
                 if viol:
